@@ -29,6 +29,7 @@ class Contract:
         self.ghost_params = kw.pop("ghost_params", {})   # extra universally quantified ghost inputs: name -> tag
         self.locals = kw.pop("locals", {})          # local name -> type tag (hints)
         self.cover = kw.pop("cover", True)
+        self.total = kw.pop("total", False)         # shape __getattr__: every method name exists
         self.field_tags = kw.pop("field_tags", {})  # field name -> tag, overriding the class table for this target only
         self.only_paths = kw.pop("only_paths", None)
         if kw:
